@@ -18,9 +18,11 @@ TRUSTED = ["trees built through NewNode/NewEdge + verif hooks (exact neighbour o
            "bootstrap trees are fed through a closed buffered channel of tree.Trees as utils.ReadMultiTrees does (no Newick parsing)",
            "a call that does not return within 4 s is reported as a hang"]
 ASSUMPTIONS = ["cpus = 1: the sequential semantics is modelled (threading is property C11)",
-               "the hash index (hashmap + Edge.HashCode over FNV of the tip names) behaves as a set of bipartitions for trees on the "
-               "same taxa (equal bipartitions have equal hash codes); after an error (bootstrap tree on other taxa) only "
-               "err/hang/panic are compared with the model, not the supports left in the reference tree",
+               "the model represents the per-bootstrap EdgeIndex as a set of bipartitions; that the hash map (bucket array, FNV hash "
+               "codes of the tip names, rehash) behaves so for trees on the same taxa is a theorem "
+               "(fbp/tbe_edge_index_is_a_set_of_bipartitions) about the C04 model of hashmap.go / edgeindex.go, itself tied to the "
+               "code by the C04 correspondence; after an error (bootstrap tree on other taxa) only err/hang/panic/progress are "
+               "compared with the model, not the supports left in the reference tree",
                "float64 results are compared with the exact rationals up to 1e-9"]
 LEVEL_TEXT = "proof"
 LEVEL_NOTE = ""
